@@ -73,15 +73,18 @@ type AgentCfg struct {
 // Config is a complete stack.  Levels from the top: AT (optional), L1, L2 (TLBs,
 // zero to two), MC (optional MMU cache), GM (optional GMMU), MMU.
 type Config struct {
-	Name      string       `json:"name"`
-	Log2Page  uint64       `json:"log2_page"`
-	AT        *ATCfg       `json:"at,omitempty"`
-	TLBs      []TLBCfg     `json:"tlbs"`
-	MMUCache  *MMUCacheCfg `json:"mmu_cache,omitempty"`
-	GMMU      *WalkerCfg   `json:"gmmu,omitempty"`
-	MMU       WalkerCfg    `json:"mmu"`
-	NumPPages int          `json:"num_ppages"`
-	Agents    []AgentCfg   `json:"agents"`
+	Name     string `json:"name"`
+	Log2Page uint64 `json:"log2_page"`
+	// TLBLog2Page, when not 0, builds the TLBs with another page size than the rest of
+	// the stack (only to check that a checkpoint of a consistent stack is refused).
+	TLBLog2Page uint64       `json:"tlb_log2_page,omitempty"`
+	AT          *ATCfg       `json:"at,omitempty"`
+	TLBs        []TLBCfg     `json:"tlbs"`
+	MMUCache    *MMUCacheCfg `json:"mmu_cache,omitempty"`
+	GMMU        *WalkerCfg   `json:"gmmu,omitempty"`
+	MMU         WalkerCfg    `json:"mmu"`
+	NumPPages   int          `json:"num_ppages"`
+	Agents      []AgentCfg   `json:"agents"`
 }
 
 // Level is one translator of the stack.
@@ -111,7 +114,6 @@ type Stack struct {
 	Agents    []*Agent
 	Ctrl      *Controller
 	Conns     []*directconnection.Comp
-	wtag      uint64 // numbering of scripted writes (see WriteTagBit)
 }
 
 // Level returns the level with the given name, or nil.
@@ -172,7 +174,7 @@ func BuildOn(reg modeling.Registrar, cfg Config) *Stack {
 		cfg.NumPPages = 16
 	}
 	s := &Stack{Cfg: cfg, Engine: reg.GetEngine()}
-	s.PageTable = vm.MakePageTableBuilder().WithLog2PageSize(cfg.Log2Page).Build(cfg.Name + ".PT")
+	s.PageTable = vm.MakePageTableBuilder().WithLog2PageSize(cfg.Log2Page).WithSimulation(reg).Build(cfg.Name + ".PT")
 	conn := func(name string, ports ...messaging.Port) {
 		c := directconnection.MakeBuilder().WithRegistrar(reg).Build(cfg.Name + "." + name)
 		for _, p := range ports {
@@ -239,6 +241,9 @@ func BuildOn(reg modeling.Registrar, cfg Config) *Stack {
 		tc := cfg.TLBs[i]
 		ts := tlb.DefaultSpec()
 		ts.Log2PageSize = cfg.Log2Page
+		if cfg.TLBLog2Page != 0 {
+			ts.Log2PageSize = cfg.TLBLog2Page
+		}
 		ts.NumSets = pos(tc.Sets, 1)
 		ts.NumWays = pos(tc.Ways, 2)
 		ts.MSHRSize = pos(tc.MSHR, 2)
@@ -261,7 +266,7 @@ func BuildOn(reg modeling.Registrar, cfg Config) *Stack {
 		is.Latency = pos(cfg.AT.MemLatency, 3)
 		is.Width = pos(cfg.AT.MemWidth, 2)
 		is.Capacity = uint64(cfg.NumPPages+1) << cfg.Log2Page
-		s.Storage = mem.MakeStorageBuilder().WithCapacity(is.Capacity).Build(cfg.Name + ".Mem.Storage")
+		s.Storage = mem.MakeStorageBuilder().WithCapacity(is.Capacity).WithSimulation(reg).Build(cfg.Name + ".Mem.Storage")
 		s.Mem = idealmemcontroller.MakeBuilder().WithRegistrar(reg).WithSpec(is).
 			WithResources(idealmemcontroller.Resources{Storage: s.Storage}).Build(cfg.Name + ".Mem")
 		assign(reg, s.Mem, cfg.AT.MemBuf, "Top", "Control")
@@ -299,7 +304,7 @@ func BuildOn(reg modeling.Registrar, cfg Config) *Stack {
 	}
 
 	// --- agents
-	for _, ac := range cfg.Agents {
+	for ai, ac := range cfg.Agents {
 		l := s.Level(ac.At)
 		if l == nil {
 			panic("vmstack: agent " + ac.Name + " attached to missing level " + ac.At)
@@ -307,7 +312,7 @@ func BuildOn(reg modeling.Registrar, cfg Config) *Stack {
 		if l.Kind == "mmucache" {
 			panic("vmstack: the MMU cache answers one fixed upstream port; no agent can be attached to it")
 		}
-		a := newAgent(s, ac, l)
+		a := newAgent(s, reg, ac, l, ai)
 		s.Agents = append(s.Agents, a)
 		reqPorts[l.Name] = append(reqPorts[l.Name], a.port)
 	}
